@@ -3,6 +3,7 @@ import SamVerif.Lemmas.TailRec
 import SamVerif.Lemmas.CpeSem
 import SamVerif.Lemmas.TailStmt
 import SamVerif.Lemmas.CpeProg
+import SamVerif.Model.VecRt
 /-!
 # C01 — compiled code behaves as the source semantics prescribe: property theorems
 
@@ -29,6 +30,10 @@ K3 (tail recursion → loop, `mir_tail_recursion_rewrite.rs`; loop update `wasm_
 * `tailrec_equiv_seq` (full strength, the loop as the backends run it), `tailrec_equiv_par`,
   `seqAssign_eq_par_partial` / `_counterexample` (why the snapshot of fix c57720b is needed),
   `swap_regression`. History: before fix c57720b (finding C01-F2) `swap(1, 2, 1)` gave 22.
+
+K5 (Vec runtime, `libsam.wat` `$__Vec$*`): `wf_push`, `push_contents` (growth preserves contents),
+`get_spec`, `set_spec`, `pop_spec` (in range ⇔ value; out of range — negative, `= len`, `> len` — ⇔ the
+prescribed panic; never an engine trap).
 
 K4 (constant-parameter elimination decision, `mir_constant_param_elimination.rs`):
 * `meet_comm`, `meet_assoc`, `meet_idem`, `paramState_c32_sound`, `paramState_unused_sound`,
@@ -979,5 +984,179 @@ def hgProg : Prog :=
 example : paramState (hgProg.map CpeProg.fnOf) (CpeProg.fnOf (hgProg[2]!)) 3 3 = .c32 7 := by decide
 example : (hgProg.map (·.name)).Nodup := by decide
 example : hgProg.all (fun fn => callsArityG 2 4 fn.body) = true := by decide
+
+end SamVerif.C01
+
+/-! ## K5 — the Vec runtime (libsam.wat) -/
+namespace SamVerif.C01
+open SamVerif.VecRt
+
+theorem wf_empty : Wf empty := by simp [Wf, empty]
+theorem wf_withCapacity (c : Nat) : Wf (withCapacity c) := by simp [Wf, withCapacity]
+theorem wf_ofV (x : Int) : Wf (ofV x) := by
+  refine ⟨by simp [ofV], ?_⟩
+  intro i hi
+  have : i = 0 := by simp [ofV] at hi; omega
+  subst this
+  exact ⟨x, by simp [ofV]⟩
+
+theorem reserve_len (v : Vec) (m : Nat) : (reserve v m).len = v.len := by
+  unfold reserve; split <;> rfl
+
+theorem reserve_cap (v : Vec) (m : Nat) (h : Wf v) : m ≤ (reserve v m).data.length := by
+  unfold reserve
+  split
+  · assumption
+  · simp only [List.length_append, List.length_take, List.length_replicate]
+    have := h.1
+    split <;> split <;> omega
+
+theorem reserve_slots (v : Vec) (m : Nat) (h : Wf v) (i : Nat) (hi : i < v.len) :
+    (reserve v m).data[i]? = v.data[i]? := by
+  unfold reserve
+  split
+  · rfl
+  · have := h.1
+    simp only
+    rw [List.getElem?_append_left (by simp; omega)]
+    simp [List.getElem?_take, hi]
+
+/-- `push` keeps the representation invariant. -/
+theorem wf_push (v : Vec) (x : Int) (h : Wf v) : Wf (push v x) := by
+  have hc := reserve_cap v (v.len + 1) h
+  refine ⟨by simp [push]; omega, ?_⟩
+  intro i hi
+  simp only [push] at hi ⊢
+  by_cases hq : i = v.len
+  · subst hq
+    exact ⟨x, by simp [List.getElem?_set]; omega⟩
+  · have hlt : i < v.len := by omega
+    obtain ⟨y, hy⟩ := h.2 i hlt
+    refine ⟨y, ?_⟩
+    rw [List.getElem?_set_ne (by omega), reserve_slots v _ h i hlt, hy]
+
+/-- **Growth preserves contents**: after `push` (with or without reallocation) the Vec stands for
+the old sequence followed by the new element. -/
+theorem push_contents (v : Vec) (x : Int) (h : Wf v) :
+    contents (push v x) = contents v ++ [some x] := by
+  have hc := reserve_cap v (v.len + 1) h
+  apply List.ext_getElem?
+  intro i
+  simp only [contents, push]
+  by_cases hi : i < v.len
+  · rw [List.getElem?_take_of_lt (by omega), List.getElem?_set_ne (by omega), reserve_slots v _ h i hi]
+    rw [List.getElem?_append_left (by simp; have := h.1; omega), List.getElem?_take_of_lt hi]
+  · by_cases hq : i = v.len
+    · subst hq
+      rw [List.getElem?_take_of_lt (by omega)]
+      have hl : (List.take v.len v.data).length = v.len := by simp; exact Nat.min_eq_left h.1
+      rw [List.getElem?_append_right (by omega)]
+      simp [hl, List.getElem?_set]
+      omega
+    · have : v.len + 1 ≤ i := by omega
+      rw [List.getElem?_take_eq_none (by omega)]
+      have hl : (List.take v.len v.data).length = v.len := by simp; exact Nat.min_eq_left h.1
+      rw [List.getElem?_append_right (by omega)]
+      simp [hl]
+      omega
+
+/-- **`get`: in range ⇔ a value, out of range ⇔ the prescribed panic, never an engine trap.** -/
+theorem get_spec (v : Vec) (i : Int) (h : Wf v) :
+    (0 ≤ i ∧ i < v.len → ∃ x, get v i = .ok x) ∧ (i < 0 ∨ (v.len : Int) ≤ i → get v i = .panicOob) ∧
+      get v i ≠ .trap := by
+  unfold VecRt.get oob
+  refine ⟨?_, ?_, ?_⟩
+  · rintro ⟨h0, h1⟩
+    have hn : i.toNat < v.len := by omega
+    obtain ⟨x, hx⟩ := h.2 i.toNat hn
+    refine ⟨x, ?_⟩
+    have : ¬ (i < 0) := by omega
+    simp [this, hx]
+    omega
+  · intro hh
+    have : (decide (i < 0) || decide (v.len ≤ i.toNat)) = true := by
+      rcases hh with hh | hh
+      · simp [hh]
+      · simp; right; omega
+    simp [this]
+  · by_cases hb : (decide (i < 0) || decide (v.len ≤ i.toNat)) = true
+    · simp [hb]
+    · simp only [hb]
+      have hn : i.toNat < v.len := by simp at hb; omega
+      obtain ⟨x, hx⟩ := h.2 i.toNat hn
+      simp [hx]
+
+/-- **`set`: panics exactly at `i < 0 ∨ i ≥ len` (in particular at `i = len`), stores otherwise,
+never an engine trap.** -/
+theorem set_spec (v : Vec) (i : Int) (x : Int) (h : Wf v) :
+    (set v i x = .panicOob ↔ (i < 0 ∨ (v.len : Int) ≤ i)) ∧ set v i x ≠ .trap ∧
+      (0 ≤ i ∧ i < v.len → ∃ v', set v i x = .ok v' ∧ Wf v' ∧ v'.len = v.len ∧ get v' i = .ok x) := by
+  have hcap := h.1
+  unfold VecRt.set oob
+  refine ⟨?_, ?_, ?_⟩
+  · constructor
+    · intro hs
+      by_cases hb : (decide (i < 0) || decide (v.len ≤ i.toNat)) = true
+      · simp at hb
+        rcases hb with hb | hb
+        · exact Or.inl hb
+        · by_cases h0 : i < 0
+          · exact Or.inl h0
+          · exact Or.inr (by omega)
+      · simp only [hb] at hs
+        by_cases hd : i.toNat < v.data.length
+        · simp [hd] at hs
+        · simp [hd] at hs
+    · intro hh
+      have : (decide (i < 0) || decide (v.len ≤ i.toNat)) = true := by
+        rcases hh with hh | hh
+        · simp [hh]
+        · simp; right; omega
+      simp [this]
+  · by_cases hb : (decide (i < 0) || decide (v.len ≤ i.toNat)) = true
+    · simp [hb]
+    · simp only [hb]
+      have hn : i.toNat < v.data.length := by simp at hb; omega
+      simp [hn]
+  · rintro ⟨h0, h1⟩
+    have hn : i.toNat < v.len := by omega
+    have hb : (decide (i < 0) || decide (v.len ≤ i.toNat)) = false := by simp; omega
+    have hd : i.toNat < v.data.length := by omega
+    simp only [hb, Bool.false_eq_true, if_false, hd, if_true]
+    refine ⟨_, rfl, ⟨by simpa using hcap, ?_⟩, rfl, ?_⟩
+    · intro j hj
+      by_cases hq : j = i.toNat
+      · subst hq; exact ⟨x, by simp [List.getElem?_set, hd]⟩
+      · obtain ⟨y, hy⟩ := h.2 j hj
+        exact ⟨y, by simp only []; rw [List.getElem?_set_ne (fun hh => hq hh.symm), hy]⟩
+    · unfold VecRt.get oob
+      simp [hb, List.getElem?_set, hd]
+
+/-- `pop` on an empty Vec is the prescribed panic; otherwise it returns the last element, never a trap. -/
+theorem pop_spec (v : Vec) (h : Wf v) :
+    (v.len = 0 → pop v = .panicPop) ∧ pop v ≠ .trap ∧
+      (0 < v.len → ∃ x v', pop v = .ok (x, v') ∧ Wf v' ∧ v'.len = v.len - 1 ∧
+        v.data[v.len - 1]? = some (some x)) := by
+  unfold pop
+  refine ⟨fun h0 => by simp [h0], ?_, ?_⟩
+  · by_cases h0 : v.len = 0
+    · simp [h0]
+    · obtain ⟨x, hx⟩ := h.2 (v.len - 1) (by omega)
+      simp [h0, hx]
+  · intro hpos
+    have h0 : v.len ≠ 0 := by omega
+    obtain ⟨x, hx⟩ := h.2 (v.len - 1) (by omega)
+    refine ⟨x, { data := v.data.set (v.len - 1) none, len := v.len - 1 }, by simp [h0, hx],
+      ⟨by simp; have := h.1; omega, ?_⟩, rfl, hx⟩
+    intro j hj
+    simp only at hj
+    obtain ⟨y, hy⟩ := h.2 j (by omega)
+    exact ⟨y, by simp only []; rw [List.getElem?_set_ne (by omega), hy]⟩
+
+
+example : (push (push (push (push (push empty 1) 2) 3) 4) 5).data.length = 8 := by decide
+example : VecRt.set (push (push empty 1) 2) 2 9 = .panicOob := by decide
+example : VecRt.set (ofV 7) 1 9 = .panicOob := by decide
+example : VecRt.get (push (push empty 1) 2) (-1) = .panicOob := by decide
 
 end SamVerif.C01
